@@ -816,6 +816,46 @@ static int do_vitro(char **tok, int nt) {
 }
 #endif
 
+/* SIGKILL a process and everything below it (descendants found through /proc; a hung leaf of an ancestor chain would
+   otherwise keep spinning after its top process is gone) */
+static void kill_tree(pid_t root) {
+    enum { MAXP = 8192 };
+    static pid_t pids[MAXP], ppids[MAXP];
+    int n = 0;
+    DIR *d = opendir("/proc");
+    if (d) {
+        struct dirent *e;
+        while ((e = readdir(d)) && n < MAXP) {
+            if (e->d_name[0] < '0' || e->d_name[0] > '9') continue;
+            char pth[64], buf[512];
+            snprintf(pth, sizeof pth, "/proc/%s/stat", e->d_name);
+            int fd = open(pth, O_RDONLY);
+            if (fd < 0) continue;
+            ssize_t r = read(fd, buf, sizeof buf - 1);
+            close(fd);
+            if (r <= 0) continue;
+            buf[r] = 0;
+            char *rp = strrchr(buf, ')');
+            int pp = 0;
+            char stc;
+            if (!rp || sscanf(rp + 1, " %c %d", &stc, &pp) != 2) continue;
+            pids[n] = atoi(e->d_name);
+            ppids[n] = pp;
+            n++;
+        }
+        closedir(d);
+    }
+    static pid_t todo[MAXP];
+    int nt = 0, done = 0;
+    todo[nt++] = root;
+    while (done < nt) {
+        pid_t cur = todo[done++];
+        for (int i = 0; i < n; i++)
+            if (ppids[i] == cur && nt < MAXP) todo[nt++] = pids[i];
+    }
+    for (int i = nt - 1; i >= 0; i--) kill(todo[i], SIGKILL);
+}
+
 static void run_script(void);
 static char **g_lines;
 static size_t g_nlines, g_pc;
@@ -996,6 +1036,7 @@ static void exec_line(char *line) {
             int pr = poll(&pf, 1, (int) budget);
             if (pr < 0 && errno == EINTR) continue;
             if (pr <= 0) {
+                kill_tree(orphan);
                 kill(-orphan, SIGKILL);
                 _exit(98);
             }
@@ -1223,7 +1264,7 @@ static void exec_line(char *line) {
                     for (char *q = hang; *q; q++) if (*q == '\n' || *q == '"' || *q == '\\') *q = ' ';
                 }
                 timed_out = 1;
-                kill(p, SIGKILL);
+                kill_tree(p);
                 while (waitpid(p, &st, 0) < 0 && errno == EINTR) {}
                 break;
             }
